@@ -22,9 +22,10 @@
 (* SnapshotMustIncludeTsWithRenewalPeriod (re-use of the last flushed root *)
 (* unless it is older than the requested ts or renewal is due), with the   *)
 (* threshold-driven flushes of BulkInsert/IncreaseTs covered by the        *)
-(* explicit Flush action.  For replay the history records, for every read on a           *)
-(* snapshot, the expected result for EVERY admissible state (candidates);  *)
-(* the harness selects the candidate by the real Snapshot.Ts().            *)
+(* explicit Flush action.  For replay the history records, for every read  *)
+(* on a snapshot, the expected result for EVERY admissible state           *)
+(* (candidates); the harness selects the candidate by the real             *)
+(* Snapshot.Ts().                                                          *)
 (*                                                                         *)
 (* RollbackQuirk = TRUE transcribes bulkInsert's error path as pinned      *)
 (* (a rejected bulk puts lastSnapRoot - or an empty leaf - back as root).  *)
